@@ -25,6 +25,10 @@ for p, spec in PROPERTIES.items():
             refs.setdefault(o.key, set()).add(o.skel)
             if o.fn_skel is not None:
                 fn_skels[o.func] = o.fn_skel
+from verif_sa.core import skeleton  # noqa: E402
+for (_m, q), f in repo.fns.items():
+    # every function of the package, not only those that carry an obligation today: a function absent here is NEW in the analysed tree
+    fn_skels.setdefault(q, skeleton(f.node))
 out = {k: sorted(v) for k, v in sorted(refs.items())}
 out["__functions__"] = fn_skels
 with open(os.path.join(ROOT, "rules", "reference_shapes.json"), "w") as f:
